@@ -376,6 +376,9 @@ func stageCloneSeq(run *ev.Run, p params, ids *idCollector) {
 	rng := run.Rand("clone-seq")
 	reported := map[string]bool{}
 	for n := 0; n < p.cloneScripts; n++ {
+		if n%64 == 0 {
+			tick()
+		}
 		shape, sig, msg, log, states := cloneSeqCase(rng, n, ids)
 		run.Eval(1)
 		if sig != "" {
@@ -443,6 +446,9 @@ func stageCloneConc(run *ev.Run, p params, ids *idCollector) {
 				q, pk, e := "q"+strconv.Itoa(m), "p"+strconv.Itoa(m), "e"+strconv.Itoa(m)
 				bar.wait()
 				for s := 1; s <= W; s++ {
+					if s%256 == 0 {
+						tick()
+					}
 					ss := strconv.Itoa(s)
 					orig.AddRequestHeader(q, q+"|"+ss)
 					orig.AddResponseHeader(pk, pk+"|"+ss)
@@ -482,6 +488,9 @@ func stageCloneConc(run *ev.Run, p params, ids *idCollector) {
 				var bad []string
 				bar.wait()
 				for j := 0; j < L; j++ {
+					if j%32 == 0 {
+						tick()
+					}
 					var cl frugal.FContext
 					if (c+j)%2 == 0 {
 						cl = ow.Clone()
